@@ -141,6 +141,26 @@ def gen_xlap_case(rng, i):
     return ops, False
 
 
+def gen_junkwalk_case(rng, i):
+    """a link of one packet per page, some pages cut inside their packet (the second half then carries only the packet's tail: a seek that ends there
+    walks backwards page by page), with junk or a false capture pattern between the two halves (the sync layer has to grow and compact its buffer
+    while a page found earlier is still referred to); seeks all over the link; for the memory checker"""
+    ch, rate = rng.choice([(3, 44100), (3, 48000)])
+    n = rng.choice([3000, 6000])
+    ops = ["case %d" % i, "link %d %d 0.7 %d 5 %d 1 0" % (ch, rate, n, rng.randrange(1, 90000))]
+    for j in sorted(rng.sample(range(3, 24), rng.choice([2, 4, 6])), reverse=True):
+        ops.append("pagedamage 16 %d 0 %d" % (j, rng.randrange(0, 3)))
+        if rng.random() < 0.8:
+            ops.append("pagedamage %d %d 0 %d" % (rng.choice([22, 22, 13]), j, rng.choice([0, 30, 500, 3000])))
+    ops.append("open 0 1 %d" % rng.choice([4096, 100000]))
+    for _ in range(40):
+        ops.append("%s 0 %d" % (rng.choice(["pcmseek", "pcmseek", "pcmseekpage", "pcmseeklap"]), rng.randrange(0, n + 1)))
+        if rng.random() < 0.3:
+            ops.append("read 0 64")
+    ops.append("clear 0")
+    return ops
+
+
 def gen_case(rng, i, tier, setups):
     if i % 12 == 11:
         return gen_xlap_case(rng, i)
@@ -241,9 +261,20 @@ def run(chk):
     allcases = corpus + [g[0] for g in gens]
     res_model = V.run_vf(allcases, model=True, timeout=2400, env={"VERIF_CASE_TIMEOUT": "90"})
     res_plain = V.run_vf(allcases, model=False, variant="plain", env={"MALLOC_PERTURB_": "165", "VERIF_CASE_TIMEOUT": "60"}, timeout=2400)
+    # what the compiler's sanitizer cannot see: accesses made INSIDE the (uninstrumented, system) libogg through pointers vorbisfile kept into a buffer
+    # that libogg has meanwhile freed or moved — a small targeted batch runs under valgrind's memory checker (addressability errors only)
+    import shutil
+    res_vg = []
+    if shutil.which("valgrind"):
+        jw = [gen_junkwalk_case(chk.rng, 700000 + j) for j in range(24 if chk.tier == "quick" else 400)]
+        res_vg = V.run_vf(jw, model=False, variant="plain", env={"VERIF_CASE_TIMEOUT": "600"}, timeout=2400,
+                          wrap=["valgrind", "--quiet", "--error-exitcode=97", "--exit-on-first-error=yes", "--undef-value-errors=no", "--leak-check=no"])
+        chk.coverage["valgrind_cases"] = len(jw)
+    else:
+        chk.assumptions.append("valgrind not found: the memory-checker batch was skipped")
     ofail = []
     stats = {"open_ok": 0, "open_failed": 0, "intact_model_compared": 0, "calls": 0}
-    for d in res_model + res_plain:
+    for d in res_model + res_plain + res_vg:
         if d["crash"]:
             continue
         o = oracle(d)
@@ -265,12 +296,12 @@ def run(chk):
                             "end-trimmed, zero packets), multiplexed with a foreign stream, with junk between links; then 0-8 damages: page deleted / duplicated / swapped, serial number, "
                             "granule position (-1, 0, huge, negative), header flags (BOS/EOS/continued) or sequence number rewritten with a valid CRC, bytes truncated / zeroed / flipped / removed / repeated; "
                             "1-2 handles opened seekable or not (ov_open or ov_test+ov_test_open, callback chunk 1..100000) and 5-40 random public calls with in-range, huge and negative arguments, "
-                            "calls after ov_clear; every 12th case is a long link with lost pages and 1-400 kB of junk in its middle and seeks aimed across the gap; a per-case watchdog (SIGALRM) turns a call that never returns into a failure with that case as the replay; ASan+UBSan build and a plain build with MALLOC_PERTURB_; oracle: documented return codes, counts within the request, failed open leaves the handle zeroed "
+                            "calls after ov_clear; every 12th case is a long link with lost pages and 1-400 kB of junk in its middle and seeks aimed across the gap; a per-case watchdog (SIGALRM) turns a call that never returns into a failure with that case as the replay; ASan+UBSan build and a plain build with MALLOC_PERTURB_, plus a batch of re-paginated links with junk and false capture patterns between their pages under valgrind (what happens inside the uninstrumented libogg); oracle: documented return codes, counts within the request, failed open leaves the handle zeroed "
                             "and the source unclosed, one close per successful open; 20 min time-out per batch = termination; undamaged cases are also compared line by line with the Lean model")
     chk.coverage["distribution"] = stats
     chk.assumptions += ["termination of the real C is observed (time-out), not proved; the theorems prove it for the model's backward page search (the loop repaired as F6) over every page table",
                         "libogg is outside the model and exercised as linked"]
-    V.settle_vf(chk, res_model + res_plain, broken, ofail)
+    V.settle_vf(chk, res_model + res_plain + res_vg, broken, ofail)
 
 
 replay = __import__("checks.c07", fromlist=["replay"]).replay
